@@ -165,10 +165,11 @@ type c18Scn struct {
 	LoadPct       int           `json:"load_pct"`
 	FeedbackPct   int           `json:"feedback_pct"`
 	NoDrop        bool          `json:"no_drop"`
+	StalePct      int           `json:"stale_pct"`
 }
 
 var c18Shapes = []string{"clean", "timeouts-cancels", "streamkill", "restart", "restart-fwd", "streamkill-fwd",
-	"closeaddr", "closeaddr-async", "close-midway", "limit", "unary", "tiny-batch", "overload-wait", "mixed", "many-callers"}
+	"closeaddr", "closeaddr-async", "close-midway", "limit", "unary", "tiny-batch", "overload-wait", "mixed", "many-callers", "stale-ids"}
 
 func c18GenScn(rng *rand.Rand, idx int, shape string) *c18Scn {
 	pick := func(v ...int) int { return v[rng.Intn(len(v))] }
@@ -177,7 +178,7 @@ func c18GenScn(rng *rand.Rand, idx int, shape string) *c18Scn {
 		Policy:  []string{config.BatchPolicyBasic, config.BatchPolicyStandard, config.BatchPolicyPositive}[rng.Intn(3)],
 		Limit:   config.DefMaxConcurrencyRequestLimit,
 		Callers: pick(1, 2, 4, 16, 48, 128), AsyncPct: 30, NoDeadlinePct: 60, ShortPct: 6, CancelPct: 6, HighPriPct: 20, UnaryPct: 3,
-		LongTimeout: 2 * time.Second, HoldPct: 30, ShufflePct: 30, FeedbackPct: 10,
+		LongTimeout: 2 * time.Second, HoldPct: 30, ShufflePct: 30, FeedbackPct: 10, StalePct: 6,
 	}
 	total := vrep.Pick(500, 1500) + rng.Intn(vrep.Pick(400, 1500))
 	switch shape {
@@ -248,6 +249,16 @@ func c18GenScn(rng *rand.Rand, idx int, shape string) *c18Scn {
 		s.ShortPct, s.CancelPct = 10, 10
 	case "directed-stale-epoch-fwd", "directed-stale-epoch-direct":
 		s.MaxBatch, s.Conns, s.Fwd, s.HoldPct, s.ShufflePct, s.Callers = 128, 1, true, 0, 0, 1
+	case "stale-ids":
+		// many held responses (the flusher sends them in multi-response messages) and a hostile share of messages
+		// carrying an id the client no longer tracks
+		s.StalePct, s.HoldPct, s.ShufflePct = 40, 70, 25
+		s.MaxBatch = uint(pick(128, 32, 8))
+		s.Callers = pick(16, 48, 128)
+		s.Fwd = rng.Intn(2) == 0
+		if rng.Intn(2) == 0 {
+			s.KillProb, s.KillMin, s.KillMax = 0.4, 10, 120
+		}
 	case "many-callers":
 		s.Callers = 256
 		s.KillProb, s.KillMin, s.KillMax = 0.3, 20, 200
@@ -633,7 +644,7 @@ func c18RunScenario(t *testing.T, r *vrep.Report, scn *c18Scn, factor int) []str
 	rng := rand.New(rand.NewSource(scn.Seed))
 	run.srv = c18NewServer(run, c18SrvPlan{killProb: scn.KillProb, killMin: scn.KillMin, killMax: scn.KillMax,
 		restartAt: scn.RestartAt, downMs: scn.DownMs, holdPct: scn.HoldPct, shufflePct: scn.ShufflePct,
-		loadPct: scn.LoadPct, feedbackPct: scn.FeedbackPct}, rand.New(rand.NewSource(rng.Int63())))
+		loadPct: scn.LoadPct, feedbackPct: scn.FeedbackPct, stalePct: scn.StalePct}, rand.New(rand.NewSource(rng.Int63())))
 	if err := run.srv.start(); err != nil {
 		run.harnessError("cannot start server: " + err.Error())
 		return nil
@@ -1048,6 +1059,14 @@ func TestVerifC18BatchMultiplex(t *testing.T) {
 	r.Floor("srv_dropped", 10)
 	r.Floor("srv_batches_multi", 100)
 	r.Floor("probes_ok_after_restart", 2)
+	r.Floor("srv_stale_injected", 400*q)
+	r.Floor("srv_stale_redelivered", 250*q)
+	r.Floor("srv_stale_never_used", 40*q)
+	r.Floor("srv_stale_pos_first", 100*q)
+	r.Floor("srv_stale_pos_middle", 40*q)
+	r.Floor("srv_stale_pos_last", 100*q)
+	r.Floor("srv_stale_msgs_with_live_after", 150*q)
+	r.Floor("srv_stale_msgs_with_3plus_live", 60*q)
 	r.Floor("rl_ok", 1200*q)
 	r.Floor("rl_ok_dup", 200*q)
 	r.Floor("rl_ok_other_region", 200*q)
